@@ -42,7 +42,7 @@ NameMigrate == <<"m","i","g","r","a","t","e">>
 NameFoo == <<"f","o","o">>
 NameBar == <<"b","a","r">>
 TableNames == NameUniverse \cup SmallNames \cup {NameInstantiate, NameMigrate, NameFoo, NameBar, <<"x">>, <<"y">>, <<"z">>, <<"a","_","b">>, <<"a","_","_","b">>, <<"a","1">>, <<"a","_","1">>, <<"a","a","1">>,
-                <<"a","_","é">>, <<"é">>, <<"b","_","é","a">>, <<"é","_","b">>}
+                <<"a","_","é">>, <<"é">>, <<"b","_","é","a">>, <<"é","_","b">>, <<"x","_","y">>, <<"z","_","1">>}
 CaseTable == TLCEval([n \in TableNames |-> [v |-> VariantDef(n), w |-> WireDef(n), near |-> NearDef(n)]])
 VariantFast(n) == CaseTable[n].v
 WireFast(n) == CaseTable[n].w
@@ -88,6 +88,7 @@ Sigs == <<  <<>>,
             << [n |-> "b", t |-> "BoxNested"], [n |-> "i", t |-> "I64"], [n |-> "u", t |-> "Unit"] >> >>
 
 RespShape(j) == CASE Mod(j, 16) = 2 -> "Tup1" [] Mod(j, 16) = 6 -> "VecTup1" [] Mod(j, 16) = 10 -> "Tup2" [] Mod(j, 16) = 14 -> "ArrB"
+                  [] Mod(j, 16) = 4 -> "Bin" [] Mod(j, 16) = 12 -> "Str"      \* types that are JSON strings: bytes (base64) and text
                   [] Mod(j, 2) = 0 -> "QResp" [] OTHER -> "QRespB"
 Mk(name, kind, j) ==
     [name |-> name, kind |-> kind, args |-> Sigs[Mod(j, Len(Sigs)) + 1],
@@ -252,6 +253,17 @@ Alias2(rev) ==
     IN [id |-> IF rev THEN "AL2p" ELSE "AL2", family |-> "aliasshare", overrides |-> {},
         parts |-> IF rev THEN <<b, a, own>> ELSE <<a, b, own>>]
 
+(* attributes forwarded to the message types of a kind that leave the wire format alone: a casing rule for *fields* that is the  *)
+(* identity on snake_case names, next to the types' own rule for variant names (C01: the names stay those of the methods; C17) *)
+MsgAttrs1 ==
+    [id |-> "MA1", family |-> "shared", overrides |-> {},
+     parts |-> << [id |-> "i1", mattrs |-> << [kind |-> "query", text |-> "serde(rename_all_fields = \"snake_case\")"] >>,
+                   methods |-> << Sh(NameFoo, "query", "ok"), Sh(NameBar, "exec", "ok"), Sh(<<"a","_","b">>, "sudo", "ok") >>],
+                  [id |-> "own", mattrs |-> << [kind |-> "exec", text |-> "serde(rename_all_fields = \"snake_case\")"],
+                                              [kind |-> "sudo", text |-> "serde(deny_unknown_fields, rename_all_fields = \"snake_case\")"] >>,
+                   methods |-> << Sh(NameInstantiate, "instantiate", "ok"), Sh(<<"a","_","b">>, "exec", "ok"),
+                                  Sh(<<"x","_","y">>, "query", "ok"), Sh(<<"z","_","1">>, "sudo", "ok") >>] >>]
+
 (* programs that override entry points (C06, C04): one handler of every kind, some kinds served by the user's own functions *)
 OvProg(id, ov) ==
     [id |-> id, family |-> "override", overrides |-> ov,
@@ -302,7 +314,7 @@ RawSeq ==      \* all programs of this instance, as a sequence
        [gi \in 1..Len(Groups) |-> CorpusProg(gi)]
     \o [i \in 1..Len(SmallFs) |-> SmallProgOf(SmallFs[i], "m" \o ToString(i))]
     \o <<Shared1, Shared2, Shared3, Nested1, Unicode1, Empty1, CtxKinds1, Wide1, Defaults1, Keywords1, Generic1, Generic2, PermTwin(Shared1), PermTwin(CorpusProg(1)),
-      Alias1, Alias2(FALSE), Alias2(TRUE)>> \o OverrideProgs \o CollideProgs
+      Alias1, Alias2(FALSE), Alias2(TRUE), MsgAttrs1>> \o OverrideProgs \o CollideProgs
 
 (* the table of elaborated programs: the static semantics applied once per program *)
 ElabSeq == TLCEval([i \in 1..Len(RawSeq) |-> Elab(RawSeq[i])])
@@ -397,6 +409,9 @@ StimSet(q) ==
   \cup {St(e, "obj1", "__phantom", b, "", "", 0) : e \in Eps(q) \cap EnumKinds, b \in {"null", "exact"}}
   \cup {St(e, "obj0", "", "none", "", "", 0) : e \in Eps(q)}
   \cup {St(e, "nonobj", n, "none", "", "", 0) : e \in Eps(q), n \in {"array", "string", "number", "bool", "null"}}
+    \* a bare JSON string that spells the name of a message, at that message's own entry point: no object, so no part accepts it
+  \cup {St(M(q, x).kind, "nonobj", "name:" \o M(q, x).wire, "none", "", "", 0) :
+           x \in {y \in EnumMs(q) : Len(M(q, y).args) = 0 \/ Mod(M(q, y).h, 4) = 0}}
   \cup {St(e, "obj2", FirstWires(q, e)[1], "exact", "", "", 0) : e \in {k \in Eps(q) \cap EnumKinds : Len(FirstWires(q, k)) = 2}}
   \cup {St(e, "dup", FirstWires(q, e)[1], "exact", "", "", 0) : e \in {k \in Eps(q) \cap EnumKinds : Len(FirstWires(q, k)) >= 1}}
 
